@@ -93,7 +93,7 @@ def with_dups(n, extra, tag):
 
 ENTRY = ['fnmatch.fnmatch', 'fnmatch.filter', 'fnmatch.translate', 'fnmatch.compile', 'glob.globmatch', 'glob.globfilter',
          'glob.translate', 'glob.compile', 'glob.glob', 'glob.iglob', 'PurePath.match', 'PurePath.globmatch', 'Path.glob',
-         'Path.rglob', 'WcMatch']
+         'Path.rglob', 'WcMatch', 'WcMatch.exclude']
 
 
 def invoke(entry, incl, excl, flagnames, limit, root):
@@ -112,6 +112,13 @@ def invoke(entry, incl, excl, flagnames, limit, root):
         if entry == 'fnmatch.translate':
             return F.translate(incl, flags=fl, **kw)
         return F.compile(incl, flags=fl, **kw)
+    if entry == 'WcMatch.exclude':
+        # the folder-exclude pattern is a pattern list of its own, bounded by the same limit
+        fl = (WM.BRACE if 'BRACE' in flagnames else 0) | WM.RECURSIVE
+        pat = '|'.join(list(incl))
+        if limit is None:
+            return WM.WcMatch(root, '*', pat, fl).match()
+        return WM.WcMatch(root, '*', pat, fl, limit).match()
     if entry == 'WcMatch':
         fl = WM.BRACE if 'BRACE' in flagnames else 0
         # `|` always splits, `!` always negates; exclusions go inline
@@ -166,7 +173,9 @@ def one_case(ctx, mon, entry, incl_spec, excl_spec, L, root, inline=False, key=N
     needs = set()
     for _t, nd, _d, _tt in incl_spec + excl_spec:
         needs |= nd
-    if entry == 'WcMatch':
+    if entry == 'WcMatch.exclude' and excl_spec:
+        return
+    if entry in ('WcMatch', 'WcMatch.exclude'):
         needs.discard('SPLIT')
         inline = True
         if len(incl_spec) + len(excl_spec) > 1 and 'BRACE' in needs:
@@ -175,7 +184,7 @@ def one_case(ctx, mon, entry, incl_spec, excl_spec, L, root, inline=False, key=N
     incl = [t for t, _n, _d, _tt in incl_spec]
     excl = [t for t, _n, _d, _tt in excl_spec]
     flagnames = sorted(needs)
-    if inline and excl and entry != 'WcMatch':
+    if inline and excl and entry not in ('WcMatch', 'WcMatch.exclude'):
         flagnames = sorted(needs | {'NEGATE'})
         incl_arg = incl + ['!' + e for e in excl]
         excl_arg = None
@@ -184,6 +193,10 @@ def one_case(ctx, mon, entry, incl_spec, excl_spec, L, root, inline=False, key=N
     D = sum(d for _t, _n, d, _tt in incl_spec + excl_spec)
     T = sum(tt for _t, _n, _d, tt in incl_spec + excl_spec)
     npats = len(incl_spec) + len(excl_spec)
+    if entry == 'WcMatch.exclude':
+        # the file pattern `*` is compiled besides the list under test: whether it shares the budget is not asserted
+        T += 1
+        npats += 1
     mon.reset()
     raised = None
     try:
@@ -302,6 +315,11 @@ def run(ctx):
                 with ctx.case(timeout=120, label=(entry, 'defaults')):
                     t, nd = pat_with(1500, 0, 'z')
                     one_case(ctx, mon, entry, [(t, nd, 1500, 1500)], [], 0, root)
+                    # limit=0 stays "no limit" when exclusions are present (exclude= and inline), small and large
+                    for inline in (False, True):
+                        one_case(ctx, mon, entry, [('y{a,b}', {'BRACE'}, 2, 2)], [('e1', set(), 1, 1)], 0, root, inline=inline)
+                        one_case(ctx, mon, entry, [(t, nd, 1500, 1500)], [('e{1..3}', {'BRACE'}, 3, 3), ('f1', set(), 1, 1)], 0, root, inline=inline)
+                        one_case(ctx, mon, entry, [('y1', set(), 1, 1)], [(t, nd, 1500, 1500)], 0, root, inline=inline)
                     for n in (999, 1000, 1001, 1002):
                         t, nd = pat_with(n, 0, 'q')
                         one_case(ctx, mon, entry, [(t, nd, n, n)], [], None, root)
